@@ -4,6 +4,7 @@
 //!   pgv trace  <kind> <out.ndjson> ...   implementation -> spec (events validated by TLC)
 mod enc;
 mod gen;
+mod handles;
 mod replay;
 mod rng;
 mod trace;
